@@ -25,7 +25,8 @@ TRUSTED_BASE = [
     'axioms: none declared; every property theorem is printed by Print Assumptions (closed under the global context unless listed in assumptions)',
     'extraction with ExtrOcamlBasic only (Extract Inductive bool/option/unit/list/prod/sumbool/sumor; no Extract Constant), OCaml 4.13 compiler, coq/extract/driver.ml',
     'the hand-written Gallina model of microschc (coq/theories/*.v model files) is tied to /repo only by the correspondence check run here (differential testing on generated inputs)',
-    'the Python harness: generators, decoding of (content,length,padding) into bits, comparison',
+    'the Python harness: generators, decoding of (content,length,padding) into bits, comparison, reference implementations used as oracles, the worker interpreters of freshproc.py',
+    'heap-level models (BufferHeap.v run against the code as object programs; SchcHeap / ParserHeap / ManagerHeap / ComputeHeap tied through refinement theorems to the extracted byte-level functions)',
     'CPython semantics of the modelled constructs (slices, negative indices, int.to_bytes, dict lookup by hash then ==) are transcribed by hand',
 ]
 
